@@ -84,6 +84,75 @@ def analyse(ctx, prog, chk):
     return n
 
 
+FLAG_OK = {
+    ("ep4_curve_set_twist", "frb4"): "stored only in the M-type, b = 0 branch; every other path keeps what fp4_field_init stored, and that routine runs "
+                                     "(through fp_prime_calc) at every selection of the field, which every curve selection performs first: the value "
+                                     "found on entry is always the one a fresh library has there",
+}
+NOT_SETTERS = ("_clean", "_init")
+
+
+def rule_flag_both(ctx, prog, chk):
+    """FLAG-BOTH: a context field that a setter only ever gives constants (a kind flag: 1 under a condition) is stored on
+    every path of the setter that returns normally; a flag that is raised but never lowered keeps describing the previous
+    selection (Koblitz flag after K-283 then B-283)"""
+    n = 0
+    used = set()
+    for fn in prog.all:
+        base = fn.name.split("__")[-1]
+        if not in_scope(fn) or base.endswith(NOT_SETTERS) or fn.rfile.startswith("src/arch/"):
+            continue
+        consts, nonconst = {}, set()
+        for el in fn.all_elements():
+            for sub in ir.walk(fn, el.e):
+                if sub[0] == "=":
+                    f = H.ctx_field(fn, sub[1])
+                    if f is None or f[0] in ("code", "error", "number", "last", "caught", "reason") or f[0] in H.ACCUMULATORS:
+                        continue
+                    r = ir.peel(fn, sub[2])
+                    if isinstance(r, list) and r and r[0] == "i":
+                        consts.setdefault(f, set()).add(r[1])
+                    else:
+                        nonconst.add(f)
+            _, defs = H.accesses(prog, fn, el.e)
+            for f in defs:
+                if f not in consts:
+                    nonconst.add(f)
+        flags = [f for f in consts if f not in nonconst and not f[1]]
+        if not flags:
+            continue
+        g = ctx.xcfg(prog, fn)
+
+        def gen(node, s, pre, fn=fn):
+            _, defs = H.accesses(prog, fn, node.el.e)
+            return [("ev", "def", f[0], f[1]) for f in defs]
+        F = Facts(prog, g, gen=gen, mark_thrown=True)
+        for f in sorted(flags, key=str):
+            miss = None
+            nex = 0
+            for p, st in engines.normal_exit_states(F, g):
+                nex += 1
+                if not H.defined(st, f):
+                    miss = p
+                    break
+            if nex == 0:
+                continue
+            n += 1
+            if miss is None:
+                chk.ok("FLAG-BOTH", fn, f[0], "->%s is stored on every returning path" % f[0], line=fn.line)
+            elif (base, f[0]) in FLAG_OK:
+                used.add((base, f[0]))
+                chk.ok("FLAG-BOTH", fn, f[0], "reviewed exception: " + FLAG_OK[(base, f[0])], line=fn.line)
+            else:
+                chk.fail("FLAG-BOTH", fn, f[0], "the flag ->%s only ever receives the constant(s) %s here and a returning path stores nothing: on that path it keeps what an earlier selection left, "
+                         "so it can be raised but never lowered (or the reverse)" % (f[0], sorted(consts[f])), line=miss.line() if hasattr(miss, "line") else fn.line)
+    if prog.library is None:
+        for k in FLAG_OK:
+            if k not in used and prog.get(k[0]) is not None:
+                raise AnalysisBroken("FLAG-BOTH: the reviewed exception %s/%s no longer matches; remove it" % k)
+    return n
+
+
 def _read_besides_def(prog, fn, e, f):
     """is the field also read in the element that defines it (rhs of the store / other arguments of the call)?  Self-updates
     are classified by HIST-FREE; here only `X = g(.., X_other_index ..)` style reads of other elements count"""
